@@ -1,15 +1,23 @@
 import Lean.Data.Json
 import PynguinModel.Model.LineInstr
+import PynguinModel.Model.LineTracer
 import PynguinModel.Generated.C02Opcodes
 /-! Line-protocol driver for C02: one JSON case per line in, one JSON result per line out.
 
-case   = {"cos": [{"file": s, "nocover": [n…], "blocks": [[entry…]…]}…], "visits": [[co, blk, k]…]}
+case   = {"cos": [{"file": s, "nocover": [n…], "blocks": [[entry…]…]}…], "script": [event…]}
 entry  = {"k": "pseudo"} | {"k": "art"} | {"k": "orig", "name": s, "line": n | null}
-result = {"blocks": [[[item…]…]…], "registry": [[file, line]…], "calls": [id…], "covered": [id…],
+event  = {"e": "blk", "v": [co, blk, k]}            -- control runs through a prefix of an instrumented block
+       | {"e": "predicate", "vs": [[co, blk, k]…]}  -- proxy.executed_*_predicate; its evaluation runs these blocks
+       | {"e": "enable" | "disable" | "tdEnter" | "teEnter" | "cmExit" | "enter" | "exit"
+                | "initTrace" | "storeImportTrace" | "reset" | "setFresh"}
+The run starts from `SubjectProperties()` (a proxy around a fresh `ExecutionTracer`).
+result = {"blocks": [[[item…]…]…], "registry": [[file, line]…], "calls": [id…] (of the blk events),
+          "snaps": [[id…]…] (covered_line_ids before every new trace and at the end), "covered": [id…] (the last),
+          "aborted": n, "enabled": bool, "entered": bool, "open": n,
           "metas": [[file, line]…] | null, "linenos": [n…] | null, "coverage": [num, den], "all": bool}
 item   = "p" | "a" | ["o", name, line | null] | ["t", id]
 -/
-open Lean PynguinModel.LineInstr
+open Lean PynguinModel.LineInstr PynguinModel.LineTracer
 
 structure JEntry where
   k : String
@@ -23,9 +31,15 @@ structure JCo where
   blocks : List (List JEntry)
   deriving FromJson
 
+structure JEv where
+  e : String
+  v : Option (List Nat) := none
+  vs : Option (List (List Nat)) := none
+  deriving FromJson
+
 structure JCase where
   cos : List JCo
-  visits : List (List Nat)
+  script : List JEv
   deriving FromJson
 
 def toEntry (e : JEntry) : Except String Entry :=
@@ -54,18 +68,47 @@ def itemJ : OEntry → Json
 
 def metaJ (m : LineMeta) : Json := Json.arr #[toJson m.file, toJson m.line]
 
+def toEv (prog : List (List (List OEntry))) (e : JEv) : Except String Ev :=
+  match e.e, e.v, e.vs with
+  | "blk", some v, none => do pure (.blk (← toVisit v))
+  | "predicate", none, some vs => do pure (.op (.predicate (runHistory prog (← vs.mapM toVisit))))
+  | "enable", none, none => .ok (.op .enable)
+  | "disable", none, none => .ok (.op .disable)
+  | "tdEnter", none, none => .ok (.op .tdEnter)
+  | "teEnter", none, none => .ok (.op .teEnter)
+  | "cmExit", none, none => .ok (.op .cmExit)
+  | "enter", none, none => .ok (.op .enter)
+  | "exit", none, none => .ok (.op .exit)
+  | "initTrace", none, none => .ok (.op .initTrace)
+  | "storeImportTrace", none, none => .ok (.op .storeImportTrace)
+  | "reset", none, none => .ok (.op .reset)
+  | "setFresh", none, none => .ok (.op .setFresh)
+  | k, _, _ => .error s!"event {k}"
+
+def blkVisits : List Ev → List Visit
+  | [] => []
+  | .blk v :: es => v :: blkVisits es
+  | _ :: es => blkVisits es
+
 def runCase (c : JCase) : Except String Json := do
   let cos ← c.cos.mapM toCo
-  let visits ← c.visits.mapM toVisit
   let (r, prog) := instrumentProgram [] cos
-  let calls := runHistory prog visits
-  let cov := covered calls
+  let evs ← c.script.mapM (toEv prog)
+  let calls := runHistory prog (blkVisits evs)
+  let fin := Run.init.run (flatten prog evs)
+  let snaps := snapshots prog Run.init evs
+  let cov := fin.trace
   let cv := lineCoverage r cov
   pure <| Json.mkObj [
     ("blocks", toJson (prog.map (fun obs => obs.map (fun ob => Json.arr (ob.map itemJ).toArray)))),
     ("registry", Json.arr (r.map metaJ).toArray),
     ("calls", toJson calls),
+    ("snaps", toJson snaps),
     ("covered", toJson cov),
+    ("aborted", toJson fin.aborted),
+    ("enabled", toJson fin.proxy.tracer.enabled),
+    ("entered", toJson fin.proxy.tracer.entered),
+    ("open", toJson fin.stack.length),
     ("metas", match lineidsToMetas r cov with
               | some ms => Json.arr (ms.map metaJ).toArray
               | none => Json.null),
